@@ -88,6 +88,31 @@ func OPRFKeyBytes(s oprf.Suite, i int) []byte {
 	}
 }
 
+var (
+	findMu    sync.Mutex
+	findCache = map[string]int{}
+)
+
+// FindOPRFKey returns the index (>= 6) of the first derived alphabet key of the suite
+// whose key id (SHA-256 of the compressed public key) ends in the byte want. Requests carry
+// only that byte, so the key alphabets are extended by search to ids 00 and ff.
+func FindOPRFKey(s oprf.Suite, want byte) int {
+	k := fmt.Sprintf("%s/%02x", s.Identifier(), want)
+	findMu.Lock()
+	defer findMu.Unlock()
+	if i, ok := findCache[k]; ok {
+		return i
+	}
+	for i := 6; i < 6+8192; i++ {
+		id := sha256.Sum256(PubKeyBytes(s, OPRFKeyBytes(s, i)))
+		if id[31] == want {
+			findCache[k] = i
+			return i
+		}
+	}
+	panic("no key found")
+}
+
 // OPRFKey builds a fresh private key object from alphabet member i.
 func OPRFKey(s oprf.Suite, i int) *oprf.PrivateKey {
 	return OPRFKeyFromBytes(s, OPRFKeyBytes(s, i))
